@@ -133,7 +133,7 @@ def explain_rules(case):
                             if resource:
                                 viol |= not within(l["max"], w["max"])
                             else:
-                                viol |= not (w["maxApps"] == 0 or l["maxApps"] == 0 or l["maxApps"] <= w["maxApps"])
+                                viol |= not (w["maxApps"] == 0 or (l["maxApps"] != 0 and l["maxApps"] <= w["maxApps"]))
                     if viol:
                         bad += 1
                         shadowed += any(naming(T[a], kind, n) for a in anc)
